@@ -24,7 +24,7 @@ ASSUMPTIONS = [
 def required(tier):
     return ["sel:None", "sel:empty_list", "sel:empty_tuple", "sel:singleton", "sel:subset", "sel:superset", "sel:absent_only", "sel:duplicates",
             "empty_selection_on_nonempty_file", "replace:valid", "replace:empty", "replace:garbage", "replace:invalid_forced_first",
-            "replace:invalid_disorder", "invalid_unselected_section_really_invalid", "all_40_pairs_selected"]
+            "replace:invalid_disorder", "all_40_pairs_selected"]
 
 
 def shards(tier, seed):
